@@ -3,12 +3,15 @@ package main
 import (
 	"bytes"
 	"fmt"
+	"os"
 	"os/exec"
 	"sort"
 	"strconv"
 	"strings"
 
+	"github.com/monshunter/goat/pkg/config"
 	gdiff "github.com/monshunter/goat/pkg/diff"
+	"github.com/monshunter/goat/pkg/goat"
 	"verifharness/internal/absast"
 )
 
@@ -26,8 +29,36 @@ type predictedMarks struct {
 }
 
 func (c *e2eCtx) predictDiff(s *scenario) *predictedMarks {
-	res, order, err := realDiff(s.dir, s.cfg.Old, s.cfg.Precision, 1)
+	res, order, err := realDiffWithConfig(s.dir)
 	return &predictedMarks{diff: res, order: order, err: err}
+}
+
+// realDiffWithConfig runs the real diff stage in dir under the goat.yaml found there (the same
+// configuration the CLI will load: ignores, nested modules, precision, revisions).
+func realDiffWithConfig(dir string) (map[string][]gdiff.LineChange, []string, error) {
+	chdirMu.Lock()
+	defer chdirMu.Unlock()
+	cwd, _ := os.Getwd()
+	if err := os.Chdir(dir); err != nil {
+		return nil, nil, err
+	}
+	defer os.Chdir(cwd)
+	cfg, err := config.LoadConfig(config.ConfigYaml)
+	if err != nil {
+		return nil, nil, err
+	}
+	cfg.Threads = 1
+	fcs, err := goat.VerifGetDiff(cfg)
+	if err != nil {
+		return nil, nil, err
+	}
+	res := map[string][]gdiff.LineChange{}
+	var order []string
+	for _, fc := range fcs {
+		res[fc.Path] = fc.LineChanges
+		order = append(order, fc.Path)
+	}
+	return res, order, nil
 }
 
 // specAnswers feeds several request lines to one driver process.
